@@ -42,24 +42,24 @@ MEAN = {
 from . import special as _sp
 
 PROPS = {
-    'C01': dict(streams=[('single-item', 40, 3000)]),
-    'C02': dict(streams=[('query', 40, 3000)]),
-    'C03': dict(streams=[('index', 40, 3000)]),
-    'C04': dict(streams=[('page', 30, 2000)]),
-    'C05': dict(streams=[('conditional', 40, 3000)]),
+    'C01': dict(streams=[('single-item', 80, 3000)]),
+    'C02': dict(streams=[('query', 80, 3000)]),
+    'C03': dict(streams=[('index', 80, 3000)]),
+    'C04': dict(streams=[('page', 60, 2000)]),
+    'C05': dict(streams=[('conditional', 80, 3000)]),
     'C06': dict(streams=[('expr', 2000, 150000)]),
     'C07': dict(streams=[('update', 2000, 150000)]),
-    'C08': dict(streams=[('failing', 40, 3000)]),
+    'C08': dict(streams=[('failing', 80, 3000)]),
     'C09': dict(streams=[('malformed', 2000, 150000)]),
-    'C10': dict(streams=[('values', 40, 3000)]),
+    'C10': dict(streams=[('values', 80, 3000)]),
     'C12': dict(streams=[('numbers', 3000, 200000)]),
-    'C13': dict(streams=[('keys', 40, 3000)]),
-    'C15': dict(streams=[('faults', 40, 3000)]),
-    'C16': dict(streams=[('restrictions', 40, 3000)]),
+    'C13': dict(streams=[('keys', 80, 3000)]),
+    'C15': dict(streams=[('faults', 80, 3000)]),
+    'C16': dict(streams=[('restrictions', 80, 3000)]),
     'C17': dict(streams=[('mixed', 30, 2000)], special=_sp.twin_clients),
-    'C18': dict(streams=[('lifecycle', 30, 2000)]),
-    'C19': dict(streams=[('batch', 40, 3000)]),
-    'C20': dict(streams=[('native', 40, 3000)]),
+    'C18': dict(streams=[('lifecycle', 60, 2000)]),
+    'C19': dict(streams=[('batch', 80, 3000)]),
+    'C20': dict(streams=[('native', 80, 3000)]),
 }
 for k, v in PROPS.items():
     v['meaning'] = MEAN[k]
